@@ -9,6 +9,8 @@
       observes the shared state in two steps *without* holding the lock can see a state no serial order
       explains (the hypothesis of `C14_strictly_serializable` that every access happens inside the lock is
       necessary, not a convenience);
+    * `C17_rewrite_inside_the_lock` — regenerated fact: the rewrite transaction makes every access to the
+      database after its `Begin(true)`;
     * `C17_partial` — with no transaction running concurrently, Merge is an ordinary sequential step and
       property C15 applies (see NutsProofs.Props.C15).
   The concrete failing schedule on the real code is produced by the race detector in the `conc … -merge`
@@ -29,6 +31,13 @@ theorem C17_merge_callees :
     NutsGen.F.mergeCalls = ["DB.getDataPath", "DB.getMaxFileIDAndFileIDs", "DB.getPendingMergeEntries", "DB.getRecordFromKey", "DB.isFilterEntry",
                             "DB.reWriteData", "DataFile.ReadAt", "Entry.Size", "FileIORWManager.Close", "MMapRWManager.Close", "NewDataFile"] :=
   NutsProofs.Facts.merge_calls_ok
+
+/-- the one part of Merge the lock-protocol theorems (C14) do cover is the rewrite transaction — because
+every access it makes to the database (target file id, `MaxFileID`, `ActiveFile`, the puts, the commit)
+happens after its `Begin(true)`, under the write lock. Regenerated from the SSA of `reWriteData`: the list of
+accesses that `Begin` does not dominate is empty. (A rewrite that picks its file id before taking the lock
+overwrites the file a concurrent commit rotated into.) -/
+theorem C17_rewrite_inside_the_lock : NutsGen.F.rewriteUnlocked = [] := NutsProofs.Facts.rewrite_under_lock
 
 /-- the two serial outcomes of a reader `[look, look]` and a writer `[incr]` over a counter starting at 0 -/
 def serialOutcomes : List (List Nat) :=
